@@ -16,7 +16,16 @@ let observe f tbl acc offers =
   let qs = cat "|" (fun o -> match quality mt acc o with Ok q -> qstr q | Err e -> errs e) offers in
   let ins = cat "|" (fun o -> match contains mt acc o with Ok true -> "1" | Ok false -> "0" | Err e -> errs e) offers in
   let b = match best acc with None -> "~" | Some v -> csv_of_nlist v in
-  ignore sp; String.concat " " ["ok"; cat "|" itemstr acc; b; bm; qs; ins; csv_of_nlist (to_header acc); cat "|" csv_of_nlist (values acc)]
+  let fd = cat "|" (fun o -> match find mt acc o with Ok z -> string_of_int (int_of_z z) | Err e -> errs e) offers in
+  let ix = cat "|" (fun o -> match index mt acc o with Ok n -> string_of_int (int_of_nat n) | Err e -> errs e) offers in
+  let n = List.length acc in
+  let gi = cat "|" (fun i -> match getitem_int acc (z_of_int i) with Ok it -> itemstr it | Err e -> errs e) [0; -1; n; -n - 1] in
+  let bd = match family_best_match_default tbl f acc offers (Some (nlist_of_csv "122,122")) with
+    | Ok None -> "~" | Ok (Some o) -> csv_of_nlist o | Err e -> errs e in
+  let bit x = if x then "1" else "0" in
+  let cv = match f with FMime -> bit (accept_html acc) ^ bit (accept_xhtml acc) ^ bit (accept_json acc) | _ -> "-" in
+  ignore sp; String.concat " " ["ok"; cat "|" itemstr acc; b; bm; qs; ins; csv_of_nlist (to_header acc); cat "|" csv_of_nlist (values acc);
+                                fd; ix; gi; bd; cv]
 let () = iter_lines (fun line ->
   match fields line with
   | ["hdr"; f; h; offers; tbl] ->
